@@ -167,4 +167,43 @@ Definition wcg_run (prm : @kprm S) (fs xs0 : list vec) (junk : wcg) : option (li
     Some (map2 (fun p x => mkRes 0 (pro_val p) (k_clear x) false) pros xs0)
   else None.
 
+(* ---- rank-lifted Richardson (amgcl/solver/richardson.hpp, model Krylov.richardson) ---- *)
+Record wri := mkWri { v_x : list vec; v_r : list vec; v_s : list vec; v_res : list S; v_it : list nat }.
+
+Definition wri_step (damping : S) (fs : list vec) (w : wri) : wri :=
+  let ss := Pw (v_r w) in
+  let xs := map (fun sx : vec * vec => k_axpby damping (fst sx) s1 (snd sx)) (combine ss (v_x w)) in
+  let rs := map2 k_residual fs (Aw xs) in
+  mkWri xs rs ss (dist_norm_a rs) (map Datatypes.S (v_it w)).
+
+Definition wri_conts (maxiter : nat) (epss : list S) (w : wri) : list bool :=
+  map2 (fun (c : nat * S) eps => Nat.ltb (fst c) maxiter && sltb eps (sabs (snd c)))
+       (combine (v_it w) (v_res w)) epss.
+
+Fixpoint wri_loop (damping : S) (fs : list vec) (maxiter : nat) (epss : list S) (fuel : nat) (w : wri) : option wri :=
+  match fuel with
+  | O => Some w
+  | Datatypes.S k =>
+    let cs := wri_conts maxiter epss w in
+    if forallb (fun b => b) cs then wri_loop damping fs maxiter epss k (wri_step damping fs w)
+    else if forallb negb cs then Some w
+    else None
+  end.
+
+Definition wri_run (prm : @kprm S) (fs xs0 : list vec) (junk_s : list vec) : option (list (@kres S)) :=
+  let pros := w_prologue prm fs in
+  if forallb is_go pros then
+    let nrs := map pro_val pros in
+    let epss := map (fun nr => smax (p_tol prm * nr) (p_abstol prm)) nrs in
+    let rs := map2 k_residual fs (Aw xs0) in
+    let w0 := mkWri xs0 rs junk_s (dist_norm_a rs) (map (fun _ => 0%nat) epss) in
+    match wri_loop (p_damping prm) fs (p_maxiter prm) epss (p_maxiter prm) w0 with
+    | None => None
+    | Some w => Some (map2 (fun (c : nat * (S * S)) x => mkRes (fst c) (fst (snd c) / snd (snd c)) x false)
+                           (combine (v_it w) (combine (v_res w) nrs)) (v_x w))
+    end
+  else if forallb (fun p => negb (is_go p)) pros then
+    Some (map2 (fun p x => mkRes 0 (pro_val p) (k_clear x) false) pros xs0)
+  else None.
+
 End RankLifted.
